@@ -603,3 +603,201 @@ def normalize_path_shape(ck, rule, above_root=False):
                        'normalize_path keeps a step only under %s: a falsy '
                        'key (0, "", False) is dropped from every write '
                        'path while reads still resolve it' % sorted(bad), k)
+
+
+RECURSION_EXCEPTIONS = {
+    # after get_path(path) the children are addressed from the node reached
+    ('Store.set_emit_value', 'path'),
+}
+
+
+def recursion_forwards(ck, rule, quals):
+    """G9: a recursive function hands every mode parameter on: each
+    parameter that has a default, is read by the function and is not
+    re-derived for the recursion (``path + (k,)``) is passed to every
+    recursive call - positionally or by keyword.  A flag that is dropped
+    falls back to its default one level down (``check_equality``,
+    ``multi_updates``, ``state_type``)."""
+    n = 0
+    for qual, module in quals:
+        fi = ck.fn_opt(qual, module)
+        if fi is None:
+            continue
+        a = fi.node.args
+        params = [x.arg for x in a.args]
+        nd = len(a.defaults)
+        flags = params[len(params) - nd:] if nd else []
+        off = 1 if (fi.cls and params and params[0] == 'self') else 0
+        for c in A.calls_in(fi.node, fi.name):
+            if fi.cls and A.call_receiver(c) is None:
+                continue
+            n += 1
+            passed = {}
+            for i, x in enumerate(c.args):
+                if i + off < len(params):
+                    passed[params[i + off]] = x
+            for k in c.keywords:
+                if k.arg:
+                    passed[k.arg] = k.value
+            for fl in flags:
+                if (fi.qual, fl) in RECURSION_EXCEPTIONS:
+                    continue
+                used = any(isinstance(m, ast.Name) and m.id == fl and
+                           isinstance(m.ctx, ast.Load)
+                           for m in ast.walk(fi.node))
+                if not used:
+                    continue
+                ck.require(fl in passed, rule, fi, c,
+                           'the recursive call hands `%s` on' % fl,
+                           'the recursive call of %s does not pass `%s`: '
+                           'below the first level it falls back to its '
+                           'default (%s)' % (
+                               fi.qual, fl, A.unparse(a.defaults[
+                                   flags.index(fl)])), c)
+    return n
+
+
+def per_iteration_accumulators(ck, rule, fi, what):
+    """G10: a list/dict that is grown inside an inner loop (or directly) and
+    handed to a call or stored *inside an outer loop* belongs to that
+    iteration: its (re)initialisation must lie inside the outer loop and
+    dominate the growth within the iteration.  An accumulator hoisted out
+    of the loop carries the entries of earlier iterations along."""
+    cfg = cfg_of(fi.node)
+    n = 0
+    defs = local_defs(fi.node)
+    for outer in A.walk_no_nested(fi.node):
+        if not isinstance(outer, (ast.For, ast.While)):
+            continue
+        for c in A.calls_in(outer, ('append', 'extend', 'add', 'update')):
+            r = A.call_receiver(c)
+            if not isinstance(r, ast.Name):
+                continue
+            name = r.id
+            inits = [d for d in defs.get(name, []) if d.kind == 'assign'
+                     and isinstance(d.value, (ast.List, ast.Dict, ast.Set))
+                     and not getattr(d.value, 'elts', getattr(
+                         d.value, 'keys', None))]
+            if not inits:
+                continue
+            # consumed (passed on / stored) inside the outer loop?
+            consumed = False
+            for m in A.walk_no_nested(outer):
+                if isinstance(m, ast.Call) and m is not c and any(
+                        A.is_name(a, name) for a in m.args):
+                    consumed = True
+                if isinstance(m, ast.Assign) and A.is_name(m.value, name) \
+                        and isinstance(m.targets[0], ast.Subscript):
+                    consumed = True
+            if not consumed:
+                continue
+            n += 1
+            rn = {cfg.node(d.stmt) for d in inits
+                  if within(d.stmt, outer)} - {None}
+            be = cfg.loops[id(outer)]['body_entry']
+            ok = bool(rn) and (be in rn or cfg.must_pass(
+                be, cfg.node(c), rn, within=cfg.loop_nodes(outer)))
+            ck.require(ok, rule, fi, c,
+                       '%s is started afresh in every round before it is '
+                       'grown' % name,
+                       '%s is grown and used inside the loop over %s but '
+                       'initialised outside it: every round also carries '
+                       'what the earlier rounds collected' % (name, what), c)
+    return n
+
+
+def no_key_skipped(ck, rule, fi, message):
+    """Every loop of ``fi`` over the items of its first parameter handles
+    every item: no continue/break/return inside (other than under an
+    isinstance test of the value, which separates leaves from branches)."""
+    cfg = cfg_of(fi.node)
+    p0 = A.params_of(fi.node)[0]
+    n = 0
+    for lp in A.walk_no_nested(fi.node):
+        if not isinstance(lp, ast.For) or p0 not in A.names_in(lp.iter):
+            continue
+        n += 1
+        body = cfg.loop_nodes(lp)
+        bad = [cfg.info[x]['stmt'] for x in body if isinstance(
+            cfg.info[x]['stmt'], (ast.Continue, ast.Break))]
+        bad = [b for b in bad if not all(
+            a[0] in ('isinstance', 'notisinstance')
+            for a in cfg.guards(cfg.node(b)) - cfg.guards(
+                cfg.loops[id(lp)]['body_entry']))]
+        ck.require(not bad, rule, fi, bad[0] if bad else lp,
+                   'every key is handled at every depth', message,
+                   bad[0] if bad else lp)
+    return n
+
+
+def deep_merge_check_shape(ck, rule):
+    """deep_merge_check refuses a conflicting value: by identity when
+    check_equality is off, by value when it is on - and only then."""
+    f = ck.fn('deep_merge_check', 'library.dict_utils')
+    cfg = cfg_of(f.node)
+    ps = A.params_of(f.node)
+    dct, mrg = ps[0], ps[1]
+    flag = ps[2] if len(ps) > 2 else 'check_equality'
+    raises = [r for r in A.walk_no_nested(f.node) if isinstance(r, ast.Raise)]
+    modes = set()
+    for r in raises:
+        g = cfg.guards(cfg.node(r))
+        has_in = any(a[0] == 'in' and a[2] == dct for a in g)
+        ident = any(a[0] == 'isnot' and dct in a[1] and mrg in a[2]
+                    or a[0] == 'isnot' and mrg in a[1] and dct in a[2]
+                    for a in g)
+        value = any(a[0] == '!=' and ((dct in a[1] and mrg in a[2]) or
+                                      (mrg in a[1] and dct in a[2]))
+                    for a in g)
+        if has_in and ident and ('falsy', flag) in g:
+            modes.add('identity')
+        elif has_in and value and ('truthy', flag) in g:
+            modes.add('equality')
+        else:
+            ck.fail(rule, f, r, 'deep_merge_check refuses a value under %s: '
+                    'neither "present, check_equality off, not the same '
+                    'object" nor "present, check_equality on, not equal"'
+                    % sorted(g), r)
+    ck.require(modes == {'identity', 'equality'}, rule, f, f.node.name,
+               'conflicts are refused by identity (flag off) and by value '
+               '(flag on)',
+               'deep_merge_check no longer refuses conflicting values in '
+               'mode(s) %s: a second, different row for a time that was '
+               'already emitted would overwrite the first' % sorted(
+                   {'identity', 'equality'} - modes))
+
+
+def setdefault_before_append(ck, rule, fi):
+    """Every ``X[k].append(v)`` / ``X[k][..].append(v)`` on the dictionary
+    the function fills is preceded by the creation of ``X[k]`` exactly when
+    the key is missing (guard ``k not in X``): created when present it
+    would wipe what earlier rows appended, not created when missing it
+    raises or - worse - appends to another entry."""
+    cfg = cfg_of(fi.node)
+    n = 0
+    for s in A.walk_no_nested(fi.node):
+        if not (isinstance(s, ast.Assign) and isinstance(
+                s.targets[0], ast.Subscript) and isinstance(
+                s.value, (ast.List, ast.Dict))):
+            continue
+        empty = (isinstance(s.value, ast.List) and not s.value.elts) or (
+            isinstance(s.value, ast.Dict) and (not s.value.keys or all(
+                isinstance(v, ast.List) and not v.elts
+                for v in s.value.values)))
+        if not empty:
+            continue
+        tgt = s.targets[0]
+        if not isinstance(tgt.value, ast.Name):
+            continue
+        n += 1
+        k, X = A.unparse(tgt.slice), tgt.value.id
+        g = cfg.guards(cfg.node(s))
+        ck.require(('notin', k, X) in g, rule, fi, s,
+                   'an empty series is created only for a key that is not '
+                   'there yet',
+                   '%s is (re)created under %s: the series collected from '
+                   'earlier rows is wiped (or never created), so the list '
+                   'no longer lines up with the time vector' % (
+                       A.unparse(tgt), sorted(
+                           a for a in g if X in str(a))), s)
+    return n
